@@ -243,7 +243,7 @@ impl Shards {
         log::set_max_level(if self.events % 2 == 1 { log::LevelFilter::Trace } else { log::LevelFilter::Off });
         // thinning applies to the many independent sample events; the few summary / large-frame / echo events (each the
         // only witness of a whole code path) are always kept
-        let rare = body.starts_with("\"ev\":\"mathtot\"") || body.starts_with("\"ev\":\"rt_bad\"") || body.contains("\"probe\":1") || body.contains("\"echo\":1");
+        let rare = body.starts_with("\"ev\":\"mathtot\"") || body.starts_with("\"ev\":\"c09p\"") || body.starts_with("\"ev\":\"rt_bad\"") || body.contains("\"probe\":1") || body.contains("\"echo\":1");
         if self.keep_every > 1 && self.events % self.keep_every != 1 && !rare {
             return;
         }
